@@ -180,6 +180,13 @@ func c15Worker(args []string) {
 	}
 	base := excelize.NewFile()
 	base.NewSheet("S2")
+	for _, g := range sc.Goroutines {
+		for _, cl := range g {
+			if idx, _ := base.GetSheetIndex(cl.Sheet); idx == -1 {
+				base.NewSheet(cl.Sheet)
+			}
+		}
+	}
 	nseed := 6
 	if sc.Reopen > 0 {
 		nseed = 4000 // decoding takes long enough for first touches to overlap
@@ -431,6 +438,32 @@ func (c *Ctx) c15Scenarios() []c15scenario {
 			ft.Goroutines = append(ft.Goroutines, []c15call{mk(spec, g, 0), mk("SetCellInt", g, 1)})
 		}
 		out = append(out, ft)
+	}
+	// 1d. one worksheet per goroutine: the worksheet locks exclude nothing between the goroutines, only the
+	// workbook-level state (shared strings, styles, part publication) is shared
+	for _, spec := range []string{"SetCellValue:str", "SetCellStr", "SetSheetRow", "SetCellValue:time", "NewStyle", "SetCellStyle"} {
+		for _, other := range []string{spec, "GetCellValue", "SetCellValue:str"} {
+			sc := c15scenario{Name: "one worksheet per goroutine: " + spec + " || " + other}
+			for g := 0; g < 8; g++ {
+				var calls []c15call
+				for i := 0; i < 150; i++ {
+					sp := spec
+					if g%2 == 1 {
+						sp = other
+					}
+					cl := mk(sp, g, i)
+					cl.Sheet = "W" + strconv.Itoa(g)
+					cl.Cell = cell(i%7, i/7)
+					if cl.Fn == "SetSheetRow" {
+						nm, _ := excelize.CoordinatesToCellName(1, 40+i)
+						cl.Cell = nm
+					}
+					calls = append(calls, cl)
+				}
+				sc.Goroutines = append(sc.Goroutines, calls)
+			}
+			out = append(out, sc)
+		}
 	}
 	// 2. random mixes, 2..32 goroutines, shared and distinct cells, two sheets
 	n := 6
